@@ -286,7 +286,7 @@ def doc_cases(tier, rng, prefix):
 REGRESSION_TEXTS = [
     "a (>= 1:2.0)", "a (>= 1 )", "a [!amd64]", "a :any", "a : any (= 1)", "a <a b>", "a < x >", "a <! x>", "a [! amd64]",
     "a (> 1)", "a (< 1)", "a (1)", "a (>= 99999999999:1)", "a (>= 4294967295:1)", "a (>= 4294967296:1)", "a (>= 007:1)",
-    "a (>= 1:)", "a (>= :1)", "a (>= 1:2:3)", "a (= 0:09:09-s)", "a (= 5::)", "a (= :5)", "c (>> 7:1::2)", "a (= :)", "a (= ::: )", "a (= 1 :2)", "a (= 1:2:)", "a (= 1::2)", "a (= a:b:c )", "a (>= 1 : 2)", "a (>= a:1)", "a (>= 1a:2)", "a (>= 1", "a (>= 1:2", "a (>= 1 ",
+    "a (>= 1:)", "a (>= :1)", "a (>= 1:2:3)", "a (= 0:09:09-s)", "a []", "a <>", "a [ ]", "a < >", "a ( 1 )", "a (== 1)", "a (<> 1)", "a<a!b ! c>", "a [!! x\t!]", "${::a:}", "${}", "\r a\r", "a (= 5::)", "a (= :5)", "c (>> 7:1::2)", "a (= :)", "a (= ::: )", "a (= 1 :2)", "a (= 1:2:)", "a (= 1::2)", "a (= a:b:c )", "a (>= 1 : 2)", "a (>= a:1)", "a (>= 1a:2)", "a (>= 1", "a (>= 1:2", "a (>= 1 ",
     "a (>=\n1:2\n)", "a <", "a <!", "a <a", "a [", "a [!", "a | (", "${a} | b", "a | ${b}", "a, ${x:y} , b", "${", "${a:", "${a}b",
     "a:any:b", "a : : b", "a\n(>= 1)\n[a]\n<b>", "a (>= 1) (<< 2)", "a [b] [c]", "a <b> [c]", "a (= 1) :any",
 ]
